@@ -40,9 +40,77 @@ class View:
         return "view<%r>@%s" % (self.ctype, self.pos)
 
 
+class ByteOff:
+    """path item: byte offset `off` (python int) into the struct/array object designated by the path so far --
+    the C idiom (char*)r + offsetof(...)"""
+    __slots__ = ("off",)
+
+    def __init__(self, off):
+        self.off = off
+
+    def __repr__(self):
+        return "+%dB" % self.off
+
+
 class StreamMixin:
+    # ------------------------------------------------------------------ (char*)obj + k  -> member
+    def byte_view(self, st, p):
+        """(char*)p for a pointer that designates a struct object"""
+        tgt = self.peek(st, p)
+        if isinstance(tgt, StructObj) and (not p.path or not isinstance(p.path[-1], (ByteOff, View))):
+            return Ptr(p.obj, p.path + (ByteOff(0),), p.null)
+        return None
+
+    def resolve_byteoff(self, st, p, want=None, size=None):
+        """Ptr(..., ByteOff(k)) -> Ptr to the member that starts at byte k (descending into nested structs).
+        `want` = CType the caller is going to access it as (disambiguates a struct from its first member)."""
+        bo = p.path[-1]
+        base = Ptr(p.obj, p.path[:-1], p.null)
+        tgt = self.peek(st, base)
+        if not isinstance(tgt, StructObj):
+            raise Unsupported("byte offset into non-struct")
+        k = bo.off
+        t = tgt.ctype
+        path = []
+        while True:
+            if t.kind not in ("struct", "union"):
+                raise Unsupported("byte offset %d does not designate a member start" % bo.off)
+            off = 0
+            hit = None
+            for (fname, q, _i) in self.records(t.name):
+                ft = self.ctype(q)
+                sz, al = self.tu0._size_align(ft)
+                off = (off + al - 1) // al * al
+                if off <= k < off + max(sz, 1):
+                    hit = (fname, ft, off, sz)
+                    break
+                off += sz
+            if hit is None:
+                raise Unsupported("byte offset %d outside %r" % (bo.off, t))
+            fname, ft, off, sz = hit
+            path.append(fname)
+            k -= off
+            if k == 0:
+                if ft.kind not in ("struct", "union"):
+                    break                                    # scalar / pointer / array member: cannot descend
+                if want is None or (want.kind == ft.kind and want.name == ft.name):
+                    break                                    # the struct member itself is meant
+            t = ft
+        # access of `size` bytes: the innermost first member of that size is meant (struct and its first member share the offset)
+        while size is not None and ft.kind == "struct" and self.sizeof(ft) != size:
+            fname, q, _i = self.records(ft.name)[0]
+            path.append(fname)
+            ft = self.ctype(q)
+        return Ptr(p.obj, p.path[:-1] + tuple(path), p.null), ft
+
     # ------------------------------------------------------------------ content functions
     def content(self, srcname, leaf, ctype, pos):
+        pre = getattr(self, "content_presets", None)
+        if pre:
+            cp = const_int(pos)
+            key = (srcname, ".".join(str(x) for x in leaf), cp)
+            if cp is not None and key in pre:
+                return pre[key]
         srt = z3.RealSort() if ctype.kind == "float" else z3.IntSort()
         f = self.uf("content_%s_%s" % (srcname, ".".join(str(x) for x in leaf) or "v"), z3.IntSort(), srt)
         return f(as_int(pos))
@@ -96,9 +164,27 @@ class StreamMixin:
         size, nmemb = as_int(size), as_int(nmemb)
         total = simp(size * nmemb)
         fits = simp(z3.And(f.pos >= 0, f.pos + total <= f.size))
+        if not z3.is_true(fits) and not z3.is_false(fits):
+            # keep terms small: decide `fits` from the path condition when it is determined
+            sol = z3.Solver()
+            sol.set("timeout", 500)
+            for h in st.hyps():
+                sol.add(h)
+            sol.push()
+            sol.add(z3.Not(fits))
+            if sol.check() == z3.unsat:
+                fits = z3.BoolVal(True)
+            else:
+                sol.pop()
+                sol.add(fits)
+                if sol.check() == z3.unsat:
+                    fits = z3.BoolVal(False)
         cn = const_int(nmemb)
         old = f.pos
         # destination
+        if isinstance(dst, Ptr) and dst.obj is not None and dst.path and isinstance(dst.path[-1], ByteOff):
+            dst, _ft = self.resolve_byteoff(st, dst, size=const_int(total))
+            st.trace = st.trace + [("fread_into_member", tuple(str(x) for x in dst.path), total)]
         if isinstance(dst, Ptr) and dst.obj is not None:
             tgt = self.peek(st, dst)
             o = st.mem.get(dst.obj)
